@@ -1164,7 +1164,10 @@ class Prov:
         if tgt.kind == "value" and isinstance(callee, tuple) and callee[:1] == ("ret",):
             src = self.events[callee[1]]
             if src.target is not None and src.target.kind == "ext" and src.target.ext == "joblib.Parallel" and len(args) == 1:
-                return ("list_of", args[0])
+                d = self.emit("dispatch", "Parallel", node, fr, st)
+                d.value, d.recv = args[0], callee
+                d.ret = ("list_of", args[0])
+                return d.ret
         # ---- inlining
         if tgt.func is not None and fr.depth < self.max_depth and tgt.name not in self.no_inline and not self.on_stack(tgt.func, fr):
             do = False
@@ -1674,3 +1677,44 @@ def analysed(ctx, res):
     ctx.count("provenance events", len(res.events))
     ctx.count("functions inlined", sum(1 for e in res.events if e.kind in ("inline", "propget")))
     return res
+
+
+def first_call_only_stores(res):
+    """(H1) stores to ``self.a`` that are guarded by a test of ``self.a``'s own previous value (``is None``, truthiness,
+    ``len`` unchanged, ``hasattr``): the attribute is established on the first call only and goes stale when the method
+    is called again with other data / parameters.  Returns [(store event, guarding condition term)]."""
+    out = []
+    for s in res.stores():
+        for cond, pol, origin in res.facts(s):
+            stack, hit = [cond], False
+            while stack and not hit:
+                x = stack.pop()
+                if isinstance(x, tuple):
+                    if len(x) >= 2 and x[0] in ("attr0", "attr@") and x[1] == s.attr:
+                        hit = True
+                    elif len(x) == 3 and x[0] == "hasattr" and x[1] == SELF and x[2] == ("const", s.attr):
+                        hit = True
+                    else:
+                        stack.extend(x)
+                elif isinstance(x, frozenset):
+                    stack.extend(x)
+            if hit:
+                out.append((s, cond))
+                break
+    return out
+
+
+def check_first_call_only(ctx, res, rule, construct, loc_of):
+    """Record the H1 obligation for one interpreted entry point."""
+    bad = first_call_only_stores(res)
+    seen = set()
+    for s, cond in bad:
+        if s.attr in seen:
+            continue
+        seen.add(s.attr)
+        ctx.violation(rule, "%s:re-established:%s" % (construct, s.attr),
+                      "self.%s is (re)computed only when a test of its own previous value holds (%s): on a second call with other data "
+                      "or parameters the value of the first call is silently reused" % (s.attr, res.fmt(cond)), loc_of(s),
+                      witness={"history": "call twice (fit(y1); fit(y2) or set_params(...); fit(y))"})
+    if not bad:
+        ctx.ok(rule, construct + ":re-established", "no fitted attribute is guarded by its own previous value (%d stores)" % len(res.stores()), None)
